@@ -149,7 +149,12 @@ fn op_kind(o: BOp) -> &'static str {
 }
 
 fn hexs(v: &[u32]) -> String {
-    v.iter().map(|p| format!("{:08x}", p)).collect::<Vec<_>>().join(" ")
+    let s = v.iter().take(64).map(|p| format!("{:08x}", p)).collect::<Vec<_>>().join(" ");
+    if v.len() > 64 {
+        format!("{} ... ({} pixels)", s, v.len())
+    } else {
+        s
+    }
 }
 
 impl Check for C15 {
@@ -252,6 +257,42 @@ impl Check for C15 {
                                 }
                             }
                         }
+                    }
+                }
+            }
+        });
+        // very long strips at right angles: (row of one surface) x (width of the other) exceeds
+        // 2^31, so an index computed from the wrong pair or in 32 bits goes wrong
+        run.bound("huge-strips", "65536x1 source onto 1x40000 destination and 1x40000 source onto 65536x1 destination: single-pixel and whole-surface src_rects, the moved pixel at 5 source positions x 5 destination positions, copy / alpha 0.5".to_string());
+        run.par(2 * 25, |si, l| {
+            let swap = si / 25 == 1;
+            let (sw, sh, dw, dh) = if swap { (1, 40000, 65536, 1) } else { (65536, 1, 1, 40000) };
+            let (slen, dlen) = if swap { (40000, 65536) } else { (65536, 40000) };
+            let sp = [0, 1, slen / 2 - 1, slen / 2, slen - 1][(si % 25) / 5];
+            let dp = [0, 1, 32767.min(dlen - 2), 32768.min(dlen - 1), dlen - 1][si % 5];
+            for whole in [false, true] {
+                // source pixel sp (along the source's long axis) lands on destination pixel dp
+                let (r, d) = match (swap, whole) {
+                    (false, false) => ([sp, 0, sp + 1, 1], [0, dp]),
+                    (false, true) => ([0, 0, sw, sh], [-sp, dp]),
+                    (true, false) => ([0, sp, 1, sp + 1], [dp, 0]),
+                    (true, true) => ([0, 0, sw, sh], [dp, -sp]),
+                };
+                for op in [BOp::Copy, BOp::Alpha(0.5)] {
+                    let c = Case { sw, sh, dw, dh, r, d, op, ctx: false };
+                    l.states += 1;
+                    l.transitions += 1;
+                    l.traces += 1;
+                    l.evals += 1;
+                    match eval(&c) {
+                        Res::Ok(h, moved) => {
+                            l.outcome(h);
+                            if moved {
+                                l.nontrivial += 1;
+                            }
+                        }
+                        Res::Skip => l.count("skipped_reference_undefined_nonseparable_overflow", 1),
+                        Res::Bad(v) => run.report(300_000 + si, v),
                     }
                 }
             }
